@@ -339,3 +339,44 @@ def _lease_tables(ctx):
             rets = set(p.ret for p in paths if p.ret is not None)
             ctx.check("C12-d", "ReadLease::pack#layout", rets == {want}, "pack(term, deadline) = ((term & 0xFFFF) << 48) | (deadline & (2^48-1))",
                       "pack is not ((term & 0xFFFF) << 48) | (deadline & (2^48-1)): %s" % [sym_show(r) for r in rets], "%s:%s" % (pk.file, pk.line))
+
+
+# ---------------------------------------------------------------------------------------------
+# C12-f (added after seeded mutant C12-s1): a lease renewal / lease-read release triggered by an
+# AppendEntries acknowledgement must be gated on the acknowledging peer being a voter.
+def _run_f(ctx):
+    from .helpers_r3 import XSlice, excludes_learners
+    F = ctx.F
+    har = ctx.anchor(F.method, "LeaderState", "handle_append_result")
+    if not har:
+        return
+    mb = F.main_body(har)
+    conds = edge_conditions(mb)
+
+    def voter_true(c):
+        if c.truth is not True or c.kind != "call" or not re.search(r"iterator::Iterator>?::any$", c.callee or ""):
+            return False
+        cs = XSlice(F, mb)
+        for a in c.call["args"]:
+            cs.operand(a)
+        return cs.has_field("ClusterMetadata", "replication_targets") and excludes_learners(F, cs.closures())[0]
+    sites = calls_matching(mb, r"LeaderState::(update_lease_timestamp|drain_pending_lease_reads|execute_pending_reads)$")
+    ctx.floor("C12-f", len(sites), 2, "lease renewal / read release sites in handle_append_result")
+    seen = {}
+    for (bi, t) in sites:
+        nm = callee_names(t)[0].split("::")[-1]
+        n = seen.get(nm, 0)
+        seen[nm] = n + 1
+        ok, wit, _ = guarded_by(mb, bi, voter_true, conds)
+        ctx.check("C12-f", "%s#%s[%d]#acknowledged-by-a-voter" % (fkey(har), nm, n), ok,
+                  "reached only when the acknowledging peer is a voter (NodeMeta.role != Learner)",
+                  "the lease is renewed / lease and linearizable reads are released on an acknowledgement from ANY peer: a learner's ACK (learners are "
+                  "not part of any quorum) keeps an isolated leader's lease alive", loc(mb, bi), wit and bpath(mb, wit))
+
+
+_run_orig = run
+
+
+def run(ctx):
+    _run_orig(ctx)
+    _run_f(ctx)
